@@ -2,7 +2,7 @@
    Model.v is the reader as implemented (validated against pharmpy by the correspondence check),
    Spec.v is the reference reader written from docs/NONMEM.rst. *)
 From Coq Require Import QArith ZArith NArith List Bool PArith Arith.
-From PV Require Import Base.PyData C13.Model C13.Spec C13.Proofs C13.Time C13.TimeProofs C13.Pk.
+From PV Require Import Base.PyData C13.Model C13.Spec C13.Proofs C13.Time C13.TimeProofs C13.Pk C13.PkProofs C13.Raw C13.RawProofs.
 Import ListNotations.
 Local Open Scope nat_scope.
 
@@ -167,3 +167,36 @@ Theorem filter_observations_spec :
     (nth j (obs_mask ids labs) false = true <->
      exists k i' lab, nth_error ids k = Some i' /\ nth_error labs k = Some lab /\ is_zero lab = true /\ cell_eqb i i' = true).
 Proof. exact obs_mask_spec. Qed.
+
+(* The composition for $PK models: for every input satisfying the guard whose ID column is a kept column, the
+   dataset pharmpy computes for a model with a $PK record (read_nonmem_dataset followed by filter_observations),
+   restricted to the kept columns, is the reference reader followed by the observation filter — same error class,
+   same columns, same rows, same exact values. *)
+Theorem reader_refines_pk :
+  forall i : input,
+    guard i = true ->
+    match column_info (i_options i) with
+    | Ok ci => mems s_ID (kept_names (ci_names ci) (ci_drop ci)) = true
+    | Err _ => True
+    end ->
+    project_kept i (read_model_pk i) = spec_read_pk i.
+Proof. exact reader_refines_pk_lemma. Qed.
+
+(* binary64 model of translate_nmtran_time (tied to the code by EXACT equality of the resulting doubles): when the
+   truncating split of the two clock times loses nothing, the integer nanosecond difference of the two Timestamps is
+   exactly 3600e9 x the calendar difference in hours — so only the two final float divisions (/1e9, /3600) separate
+   the result from the calendar difference; when the split is not exact the result is up to 2 ns early/late
+   (split_truncation_refuted). *)
+Theorem stamp_difference_exact :
+  forall (dn1 dn2 : Z) (tv1 tv2 : Q),
+    split_exact tv1 = true -> split_exact tv2 = true ->
+    Qeq (inject_Z ((dn2 * 86400000000000 + ns_of_hours tv2) - (dn1 * 86400000000000 + ns_of_hours tv1)))
+        (3600000000000 * (inject_Z (dn2 - dn1) * 24 + (tv2 - tv1))).
+Proof. exact stamp_difference_exact_lemma. Qed.
+
+(* raw mode (Model.read_raw_dataset): for every text over the printable alphabet without a TAB at a row end, the
+   raw table is the documented lines split into the documented items, each row cut / padded to the width of the
+   first row — no filter, no NULL substitution, no conversion, no padding to $INPUT (see Raw.v for what is skipped). *)
+Theorem raw_refines :
+  forall i : input, g_alphabet i = true -> g_edge_tab i = true -> read_raw i = spec_raw i.
+Proof. exact raw_refines_lemma. Qed.
